@@ -31,7 +31,8 @@
 //   I                    InvalidateBlock(tip)      (reorg depth 1, transactions return to the pool)
 //   X                    two empty blocks on the tip's parent (reorg depth 1 through ActivateBestChain)
 //   T                    mock time + 2 weeks + 1 s (expiry, rolling minimum fee decay)
-//   P:<i>:<s>            PrioritiseTransaction(pool tx i, s = + | -  => +-1000 sat);  P:n:+ prioritises the tx N:2:z would make
+//   P:<i>:<s>            PrioritiseTransaction(pool tx i, s = + | -  => +-1000 sat);  P:n:+ prioritises the tx N:2:z would make,
+//                        P:d:+ the tx D:z would make (+1000), P:d:- the dusty parent of PE:b:m:k by minus its base fee
 // fee codes f: z=0  l=minrelay-1  m=minrelay  d=2x  h=10x  k=50x   (minrelay = min_relay_feerate.GetFee(vsize))
 // thresholds t (S = sum of modified fees of i and its descendants, inc = incremental_relay_feerate.GetFee(new vsize)):
 //   a=S-1  b=S  c=S+inc-1  d=S+inc  e=S+inc+1  h=2S+10inc
@@ -233,6 +234,7 @@ struct Opts {
     // state-based guards that keep small tiers small: special coins / packages only while the pool holds no menu tx,
     // time jumps only with a non-empty pool, reorgs only when they can touch the pool or a mined block
     bool guarded{false};
+    bool pe_all{true};                   // all PE variants (else only PE:b:z:k and PE:m:z:k)
     bool test_before_submit{false};      // C28: run test_accept first, in the same transition
     std::function<std::string(struct Sim&, const struct Snap&)> obs{}; // optional monitor-defined observation, captured before / between / after
     int depth_quick{3}, depth_thorough{4};
@@ -710,9 +712,9 @@ struct Sim {
         } else if (c == "P") {
             a.prio_delta = p[2] == "+" ? PRIO_DELTA : -PRIO_DELTA;
             if (p[1] == "d") {
-                // P:d:+  prioritise the tx D:z would make by +1000;  P:d:-  prioritise the tx D:h would make by minus its fee
-                Act dx = Build(p[2] == "+" ? "D:z" : "D:h", s);
-                if (dx.kind != Act::SUBMIT) return a;
+                // P:d:+  prioritise the tx D:z would make by +1000;  P:d:-  prioritise the parent of PE:b:m:k by minus its fee
+                Act dx = Build(p[2] == "+" ? "D:z" : "PE:b:m:k", s);
+                if (dx.kind == Act::NONE) return a;
                 a.prio_txid = dx.txs[0]->GetHash();
                 if (s.deltas.count(a.prio_txid)) return a;
                 if (p[2] == "-") {
@@ -775,7 +777,7 @@ struct Sim {
         if (o.has("J")) for (char f : o.child_fees) cand.push_back("J:" + S(f));
         if (o.has("PK")) for (char pf : o.pk_parent) for (char cf : o.pk_child) cand.push_back("PK:2:" + S(pf) + ":" + S(cf));
         if (o.has("PK3")) for (char pf : o.pk_parent) for (char cf : o.pk_child) cand.push_back("PK:3:" + S(pf) + ":" + S(cf));
-        if (o.has("PE")) { for (const char* k : {"b", "m", "d"}) cand.push_back(std::string("PE:") + k + ":z:k"); cand.push_back("PE:b:m:k"); }
+        if (o.has("PE")) { for (const char* k : {"b", "m", "d"}) if (o.pe_all || k[0] != 'd') cand.push_back(std::string("PE:") + k + ":z:k"); cand.push_back("PE:b:m:k"); }
         if (o.has("D")) { cand.push_back("D:z"); cand.push_back("D:h"); }
         if (o.has("W")) for (const char* k : {"a", "b", "c", "d"}) cand.push_back(std::string("W:") + k);
         if (o.has("NX")) { for (const char* k : {"NF", "NU", "NI", "NM"}) cand.push_back(k); if (!addr.empty()) cand.push_back("S:0"); }
@@ -791,7 +793,7 @@ struct Sim {
         for (auto& c : cand) {
             if (o.guarded) {
                 std::string k = SplitLabel(c)[0];
-                if (menu_tx_in_pool && (k == "NY" || k == "NL" || k == "NQ" || k == "PK" || k == "PE" || k == "D")) continue;
+                if (menu_tx_in_pool && (k == "NY" || k == "NL" || k == "NQ" || k == "PK" || k == "PE" || k == "D" || c.rfind("P:d", 0) == 0 || c.rfind("P:n", 0) == 0)) continue;
                 if (s.txs.empty() && k == "T") continue;
                 if (!menu_tx_in_pool && s.height <= base_height && (k == "I" || k == "X")) continue;
             }
